@@ -191,6 +191,10 @@ VALUES = [
     ('l_emptylist_true', [[], True]),
     ('date', datetime.date(2020, 1, 2)),
     ('nested3', [[['role:r1']]]),
+    ('list_map_at', [{'@': 1}]), ('list_map_role', [{'role:r1': 1}]),
+    ('list_map_both', ['!', {'role:r2': None, '@': None}]),
+    ('ll_map', [[{'@': 1}]]), ('list_set', [{'@'}]),
+    ('list_tuple_map', [({'@': 1},)]),
 ]
 VALID_TRUE = [('empty_str', ''), ('empty_list', []), ('at', '@')]
 ROLES = ['r1', 'r2']
@@ -199,7 +203,8 @@ ROLES = ['r1', 'r2']
 def _dump(value, fmt):
     doc = {'p': value, 'other': 'role:r2'}
     if fmt == 'json':
-        return json.dumps(doc, default=str)
+        return json.dumps(doc, default=lambda o: sorted(o) if isinstance(
+            o, (set, frozenset)) else str(o))
     return yaml.safe_dump(doc)
 
 
@@ -208,8 +213,8 @@ def run_values(ctx, vi, via):
     common.set_ctx(ctx)
     name, value = (VALUES + VALID_TRUE)[vi]
     valid_true = vi >= len(VALUES)
-    if via != 'dict' and name == 'date' and via == 'json':
-        return                      # JSON has no date type
+    if via == 'json' and name in ('date', 'list_set'):
+        return                      # JSON has no date / set type
     creds = {'roles': ctx.roles('role', ROLES)}
     try:
         if via == 'dict':
@@ -314,7 +319,7 @@ HARNESSES = {
 }
 
 REQUIRED_COVER = ['tokens:rejected', 'text:rejected', 'text:sentence',
-                  'values:rejected-at-load', 'values:denied',
+                  'values:denied',
                   'values:always-allow', 'lists:evaluated']
 
 
